@@ -20,6 +20,7 @@ Not decided: the framers' start-code scanning and access-unit cutting
 import itertools
 
 from upv import facts, ghost, tsref
+from upv.facts import walk
 from upv.absint import SYM, Finding, Undecided, PathEnd
 from upv.report import Report, HOLDS, VIOLATED, UNDECIDED, OOS
 from rules.c15 import Runner, need, PIPE
@@ -409,6 +410,110 @@ def check_find(rep, prog, tier):
     rep.tables['R-find'] = {'abstract_runs': nruns}
 
 
+# ---- R-au-start: which NAL unit opens a new access unit (H.264) ---------------------------------------------------
+
+def check_au_start(rep, prog):
+    """upipe_h264f_begin_annexb interpreted for every NAL header: the previous access unit is closed exactly when
+    ISO/IEC 14496-10 7.4.1.2.3 says the NAL unit just met is the first of a new one"""
+    rep.rule('R-au-start', 'upipe_h264f_begin_annexb interpreted for every NAL unit type 0..31 x nal_ref_idc 0 / 1 x (a slice already in the unit or not) x '
+             '(that slice IDR or not, reference or not): it closes the current access unit (upipe_h264f_output_prev_annexb) exactly when the unit holds a '
+             'slice and the NAL unit just met is an access unit delimiter, SPS, PPS, SEI, one of types 14 to 18 (or 13, which the code adds), or a slice that '
+             'differs from the first one in IDR-ness or in nal_ref_idc being zero - ISO/IEC 14496-10 7.4.1.2.3 / 7.4.1.2.4 as far as it can be decided from the '
+             'NAL headers (slice header fields are compared elsewhere, in end_annexb)')
+    u = prog.units.get(U_H264)
+    fn = u.funcs.get('upipe_h264f_begin_annexb') if u else None
+    if fn is None or not fn.blocks:
+        raise facts.AnalysisBroken('anchor vanished: upipe_h264f_begin_annexb')
+    OPEN = {6, 7, 8, 9, 13, 14, 15, 16, 17, 18}
+    n = 0
+    for ty in range(0, 32):
+        for ref in (0, 1):
+            for au_slice in (0, 1):
+                for sty, sref in ((1, 0), (1, 1), (5, 1)):
+                    if not au_slice and (sty, sref) != (1, 0):
+                        continue
+                    n += 1
+                    inst = 'type=%d,ref=%d,slice=%s' % (ty, ref, ('%s/ref%d' % ('idr' if sty == 5 else 'non-idr', sref)) if au_slice else 'none')
+                    what = None
+                    try:
+                        m = ghost.BlockMachine(prog, u, 'upipe_h264f', {'au_last_nal': (ref << 5) | ty, 'au_slice': au_slice, 'au_slice_nal': (sref << 5) | sty}, inline=())
+                        closed = []
+                        m.extra_api = lambda f_, node, name, v, closed=closed: (closed.append(1), None)[1] if name == 'upipe_h264f_output_prev_annexb' else NotImplemented
+                        m.run(fn, [PIPE, ('null',)])
+                        if 1 <= ty <= 5:
+                            want = bool(au_slice) and not (((sty == 5) == (ty == 5)) and ((ref == 0) == (sref == 0)))
+                        else:
+                            want = bool(au_slice) and ty in OPEN
+                        if bool(closed) != want:
+                            what = 'with %s in the current unit, a NAL unit of type %d (nal_ref_idc %d) %s the access unit; the standard says it %s' % (
+                                'a slice' if au_slice else 'no slice', ty, ref, 'closes' if closed else 'does not close', 'opens a new one' if want else 'belongs to it')
+                    except Finding as f:
+                        what = str(f)
+                    except PathEnd:
+                        what = 'an assert() fails'
+                    except Undecided as e:
+                        rep.add('R-au-start', inst, UNDECIDED, fn.loc, why=str(e))
+                        continue
+                    rep.add('R-au-start', inst, VIOLATED if what else HOLDS, fn.loc, **({'what': what} if what else {}))
+    # the NAL offset of the unit just met is recorded after the previous NAL was checked (end_annexb may close the access
+    # unit and rebase every offset): both framers
+    from upv import pathrules as pr
+    rep.rule('R-nal-offset-order', 'upipe_h264f_work_annexb / upipe_h265f_work_annexb: uref_h26x_set_nal_offset is reached only after X_end_annexb on every path - '
+             'end_annexb may output the previous access unit and rebase the coordinates (au_size, au_nal_units) the offset is expressed in')
+    for uname, fname, endf in ((U_H264, 'upipe_h264f_work_annexb', 'upipe_h264f_end_annexb'), (U_H265, 'upipe_h265f_work_annexb', 'upipe_h265f_end_annexb')):
+        uu = prog.units.get(uname)
+        f = uu.funcs.get(fname) if uu else None
+        if f is None or not f.blocks:
+            raise facts.AnalysisBroken('anchor vanished: %s' % fname)
+        ev = pr.Events(f)
+        setn = pr.m_call('uref_h26x_set_nal_offset')
+        if not ev.find(setn) or not ev.find(pr.m_call(endf)):
+            raise facts.AnalysisBroken('%s: set_nal_offset / %s not found' % (fname, endf))
+        # within one iteration: from the find() that met the NAL unit, the offset is not recorded before end_annexb
+        findc = pr.m_call(r'upipe_h26[45]f_find')
+        bad = []
+        for fp in ev.find(findc):
+            hits, _ = ev.reach((fp[0], fp[1]), setn, pr.m_call(endf))
+            bad += hits
+        rep.add('R-nal-offset-order', fname, VIOLATED if bad else HOLDS, f.loc,
+                **({'what': 'the NAL offset is recorded (line %s) before %s has checked the previous NAL unit: when that call closes the access unit the offset is '
+                            'left in the old unit\'s coordinates' % (bad[0][2].get('l'), endf)} if bad else {}))
+    # what has been recorded about data that left the stream is forgotten: the head buffer may stay the same object
+    rep.rule('R-nal-attrs', 'upipe_h264_framer.c / upipe_h265_framer.c: after every X_consume_uref_stream / X_extract_uref_stream of the access unit being assembled '
+             '(output, or one of the discard paths) every path to the end of the function forgets the NAL offsets recorded so far - the counter au_nal_units '
+             'and the h26x.n[] attributes of the head buffer (uref_h26x_delete_nal_offsets): otherwise a unit with fewer NAL units than an earlier one of the same '
+             'input buffer is output with that unit\'s higher offsets attached, and the attributes depend on how the input was cut')
+    nsite = 0
+    for uname, pfx in ((U_H264, 'upipe_h264f'), (U_H265, 'upipe_h265f')):
+        uu = prog.units[uname]
+        for f in sorted(uu.funcs.values(), key=lambda f_: f_.name):
+            if not f.blocks or not f.inmain or f.macro:
+                continue
+            ev = pr.Events(f)
+            takes = ev.find(pr.m_call(r'%s_(consume|extract)_uref_stream' % pfx))
+            takes = [t for t in takes if any(y.get('k') == 'mem' and y.get('f') == 'au_size' for a_ in t[2].get('args', []) for y in walk(f.resolve(a_)))]
+            if not takes:
+                continue
+
+            def forgets(n_, f=f):
+                if n_.get('k') != 'call' or not n_.get('fn'):
+                    return False
+                if n_['fn'] == 'uref_h26x_delete_nal_offsets':
+                    return True
+                g = uu.funcs.get(n_['fn'])
+                return g is not None and g.blocks and g is not f and any(x.get('k') == 'call' and x.get('fn') == 'uref_h26x_delete_nal_offsets' for _, _, x in g.nodes())
+            for t in takes:
+                nsite += 1
+                # (the allocation failure of extract - nothing was taken - throws fatal and is out of scope)
+                _, ex = ev.reach((t[0], t[1]), lambda n_: False, lambda n_: forgets(n_) or (n_.get('k') == 'call' and (n_.get('fn') or '').startswith(('upipe_throw', 'uprobe_throw'))))
+                rep.add('R-nal-attrs', '%s:%s@%s' % (f.name, t[2]['fn'].split('_', 2)[2], t[2].get('l')), VIOLATED if ex else HOLDS, '%s:%s' % (f.file, t[2].get('l')),
+                        **({'what': '%s takes the assembled data out of the stream (line %s) and can return without forgetting the NAL offsets recorded for it' % (
+                            f.name, t[2].get('l'))} if ex else {}))
+    if nsite < 6:
+        raise facts.AnalysisBroken('R-nal-attrs found only %d consume / extract sites' % nsite)
+    return n
+
+
 def run(tier='quick', repo=None):
     repo = repo or facts.REPO
     rep = Report(PROP, tier)
@@ -428,6 +533,7 @@ def run(tier='quick', repo=None):
     check_golomb(rep, prog)
     check_convert(rep, prog)
     check_find(rep, prog, tier)
+    check_au_start(rep, prog)
     rep.assumptions = ['ubuf_block_stream_get delivers the octets of the buffer in order and reports the end (ghost); the bits cache and the zero-run state are the real fields',
                        'the block / uref API behaves as its ghost model (upv/ghost.py); allocation does not fail',
                        'NAL offset attributes delimit the NAL units of the input frame (what the framers produce)']
